@@ -7,18 +7,17 @@ namespace CalmVerif.TokenAdj
 open CalmVerif CalmVerif.Unparse
 
 def certPretty : List (String × Abs) := certIter Gen.Rules.rs_indent Gen.Defs.definitions 4
-def cxPretty : Ctx := mkCtx Gen.Rules.rs_indent certPretty
+def cxPretty : Ctx := mkCtx Gen.Rules.rs_indent Gen.Defs.definitions certPretty
 /-- the follow relation: every pair of symbols (token signatures, layout markers) that can be adjacent in a chunk stream -/
 def followPretty : List Rect := allNeeds cxPretty Gen.Defs.definitions
 
 set_option maxRecDepth 1000000 in
 theorem certPretty_closed_forced :
-    withCert Gen.Rules.rs_indent Gen.Defs.definitions 4
-      (fun c => closedCert (mkCtx Gen.Rules.rs_indent c) Gen.Defs.definitions) = true := by decide +kernel
+    withCtx Gen.Rules.rs_indent Gen.Defs.definitions 4 (fun cx => closedCert cx Gen.Defs.definitions) = true := by decide +kernel
 
 theorem certPretty_closed : closedCert cxPretty Gen.Defs.definitions = true := by
   have h := certPretty_closed_forced
-  rw [withCert_eq] at h
+  rw [withCtx_eq] at h
   exact h
 
 theorem followPretty_closed : closed cxPretty followPretty Gen.Defs.definitions = true :=
